@@ -83,7 +83,9 @@ class Relabel(object):
                                      'visible': st['visible'] and st['formula'] is None
                                      and not st['discard'],
                                      'formula': st['formula'], 'body_level': False,
-                                     'discard': st['discard']})
+                                     'discard': st['discard'],
+                                     'shown_in_formula': st['visible'] and not st['discard']
+                                     and st['formula'] is not None})
             elif k == 'group':
                 it[1] = self.items(it[1], dict(st, body_level=st['body_level']))
             elif k == 'bgroup':
@@ -133,7 +135,9 @@ class Relabel(object):
                 p[1] = ' ' + w + ' '
                 self.markers.append({'word': w, 'kind': 'CMT', 'visible': False,
                                      'formula': st['formula'], 'body_level': False,
-                                     'between_macro_and_arg': True, 'discard': st['discard']})
+                                     'between_macro_and_arg': True, 'discard': st['discard'],
+                                     'macro_shown': st['visible'] and not st['discard']
+                                     and st['formula'] is None})
             pre2.append(p)
         if form in ('braced', 'bracket'):
             content = self.items(content, dict(st, visible=st['visible'] and form == 'braced'))
@@ -203,6 +207,17 @@ def check_doc(ast, opts_list, res, case_base):
                 if kc and m['visible'] and not present:
                     res.fail('c12:comment-missing', 'keep_comments is on but visible comment %s '
                              'is missing: %r -> %r' % (w, src, out), case)
+                if kc and m.get('shown_in_formula') and not present and mm != 'remove' \
+                        and rl.formulas[m['formula']]['visible']:
+                    res.fail('c12:comment-missing:in-formula', 'keep_comments is on, the formula '
+                             'is shown (math_mode=%s) but its comment %s is missing: %r -> %r'
+                             % (mm, w, src, out), case)
+                if kc and m.get('macro_shown') and not present:
+                    # (listed in KNOWN_FINDINGS.txt: the argument parser skips such a comment
+                    # and the node tree does not hold it)
+                    res.fail('c12:comment-missing:between-macro-and-argument',
+                             'keep_comments is on but the comment %s between a macro / environment '
+                             'and its argument is missing: %r -> %r' % (w, src, out), case)
             elif m['kind'] == 'MTH':
                 if mm == 'remove' and present:
                     res.fail('c12:math-not-removed', "math_mode='remove' but formula content %s "
@@ -292,13 +307,17 @@ def plan(tier, seed):
     n = 1920 if tier == 'quick' else 40000
     shards = [('docs', n // NSHARDS, seed * 1000 + k, tier) for k in range(NSHARDS)]
     shards += [('names', k, tier) for k in range(NSHARDS)]
+    shards += [('mathenvs', k, tier) for k in range(4)]
+    shards += [('declared', k, tier) for k in range(2)]
     return {'shards': shards, 'bounds': {'documents': n, 'option_sets':
                                          len(quick_opts()) if tier == 'quick' else len(ALL_OPTS)},
             'required_classes': ['marker:CMT', 'marker:MTH', 'marker:DSC', 'marker:TXT',
                                  'comment-between-macro-and-argument', 'comment-in-math',
                                  'discarded-content', 'formula:$', 'formula:env', 'formula:\\[',
                                  'comment-last-without-newline',
-                                 'comment-after-every-known-name']}
+                                 'comment-after-every-known-name', 'math-environment-sweep',
+                                 'formula-kind:split', 'formula-kind:alignat',
+                                 'declared-route:spec-objects', 'declared-route:legacy-defs']}
 
 
 def check_names(k, tier, res):
@@ -339,7 +358,176 @@ def check_names(k, tier, res):
         res.label('comment-after-every-known-name')
 
 
+def math_environments():
+    """(name, argument text) of every environment the default walker database parses in math
+    mode, read from the tree at run time"""
+    from pylatexenc.latexwalker import get_default_latex_context_db
+    out = []
+    for sp in get_default_latex_context_db().iter_environment_specs():
+        if getattr(sp, 'is_math_mode', False):
+            out.append((sp.environmentname, '{2}' * len(sp.arguments_spec_list or [])))
+    return sorted(out)
+
+
+FORMULA_SHAPES = [('plain', '%(b)s%(a)s x &= MTHQ y \\\\ z %(e)s'),
+                  ('comment', '%(b)s%(a)s x MTHQ %%CMTQ\n y%(e)s'),
+                  ('multi-line', '%(b)s%(a)s\n x MTHQ\n\n y\n%(e)s'),
+                  ('in-group', '{\\textbf{%(b)s%(a)s MTHQ%(e)s}}'),
+                  ('nested', '\\begin{equation}%(b)s%(a)s MTHQ %(e)s\\end{equation}'),
+                  ('in-item', '\\begin{itemize}\\item %(b)s%(a)s MTHQ%(e)s\\end{itemize}')]
+
+
+def check_formula(src, formula_src, opts, res, case, top=True):
+    """the four math modes and the comment rule on one document TXAQ <formula> TXBQ"""
+    from pylatexenc.latex2text import LatexNodes2Text
+    res.case()
+    doc = 'TXAQ ' + src + ' TXBQ'
+    try:
+        with monitor.budget(len(doc)):
+            out = LatexNodes2Text(**opts).latex_to_text(doc)
+    except BaseException as e:
+        res.fail(exc_key(e), exc_detail(e) + ' on %r' % doc, case)
+        return
+    flat = ''.join(out.split())
+    mm, kc = opts['math_mode'], opts['keep_comments']
+    if 'TXAQ' not in flat or 'TXBQ' not in flat:
+        res.fail('c12:visible-text-missing:around-formula', '%r -> %r' % (doc, out), case)
+    if mm == 'remove' and 'MTHQ' in flat:
+        res.fail('c12:math-not-removed:%s' % case['what'], 'math_mode=remove but formula content '
+                 'appears: %r -> %r' % (doc, out), case)
+    if mm in ('text', 'with-delimiters') and 'MTHQ' not in flat:
+        res.fail('c12:math-content-missing:%s' % case['what'], '%r -> %r' % (doc, out), case)
+    if mm == 'verbatim' and top and ''.join(formula_src.split()) not in flat:
+        res.fail('c12:verbatim-math-changed:%s' % case['what'], 'source %r of the formula is not in '
+                 'the output %r' % (formula_src, out), case)
+    if mm == 'verbatim' and top and opts.get('fill_text') is None and formula_src not in out:
+        res.fail('c12:verbatim-math-changed:%s' % case['what'], 'source %r of the '
+                 'formula is not in the output unchanged: %r' % (formula_src, out), case)
+    if mm == 'with-delimiters' and top:
+        o, c = case['delims']
+        i = flat.find(''.join(o.split()))
+        j = flat.find('MTHQ', i + 1) if i >= 0 else -1
+        k = flat.find(''.join(c.split()), j + 1) if j >= 0 else -1
+        if min(i, j, k) < 0:
+            res.fail('c12:delimiters-lost:%s' % case['what'], 'with-delimiters: %r, MTHQ, %r do '
+                     'not occur in this order in %r' % (o, c, out), case)
+    if 'CMTQ' in doc:
+        present = 'CMTQ' in flat
+        if not kc and present and mm != 'verbatim':
+            res.fail('c12:comment-leaks:in-math', '%r -> %r' % (doc, out), case)
+        if kc and not present and mm != 'remove':
+            res.fail('c12:comment-missing:in-formula', 'keep_comments is on, the formula is shown '
+                     '(math_mode=%s) but its comment is missing: %r -> %r' % (mm, doc, out), case)
+    res.nontriv_distinct()
+
+
+def formula_opts(tier):
+    return [dict(math_mode=m, keep_comments=c, strict_latex_spaces=sp, fill_text=f)
+            for m in MATH_MODES for c in (False, True)
+            for sp in (('macros', True) if tier == 'quick' else SPACES)
+            for f in ((None,) if tier == 'quick' else (None, 30))]
+
+
+def run_mathenvs(k, tier, res):
+    forms = [(n, '\\begin{%s}' % n, a, '\\end{%s}' % n) for n, a in math_environments()]
+    forms += [('$', '$', '', '$'), ('\\(', '\\(', '', '\\)'), ('$$', '$$', '', '$$'),
+              ('\\[', '\\[', '', '\\]')]
+    for i, (name, b, a, e) in enumerate(forms):
+        if i % 4 != k:
+            continue
+        res.label('formula-kind:' + name)
+        for shape, tpl in FORMULA_SHAPES:
+            if shape == 'nested' and not name.isalpha():
+                continue
+            if shape == 'multi-line' and name in ('$', '\\('):
+                continue        # a blank line ends inline math in LaTeX
+            src = tpl % {'b': b, 'a': a, 'e': e}
+            inner = (FORMULA_SHAPES[0][1] if shape in ('in-group', 'nested', 'in-item') else tpl)
+            fsrc = src if shape in ('plain', 'comment', 'multi-line') else \
+                (b + a + ' MTHQ ' + e if shape == 'nested' else b + a + ' MTHQ' + e)
+            if shape == 'nested':
+                fsrc = src
+            for o in formula_opts(tier):
+                check_formula(src, fsrc, o, res,
+                              {'kind': 'formula', 'src': src, 'fsrc': fsrc, 'opts': o,
+                               'what': ('env' if name[0].isalpha() else 'delimited'), 'shape': shape,
+                               'delims': ['\\begin{equation}', '\\end{equation}']
+                               if shape == 'nested' else [b, e]})
+    res.label('math-environment-sweep')
+    res.exhaustive = True
+
+
+def declared_db(route):
+    """text databases in which constructs are declared as discarded through each declaration
+    route the library offers"""
+    from pylatexenc import latex2text as L
+    from pylatexenc import macrospec
+    wdb = contexts.default_db()
+    wdb.add_context_category('pv-decl', prepend=True,
+                             macros=[macrospec.MacroSpec('dmac', '[{'), macrospec.MacroSpec('dbare', '{')],
+                             environments=[macrospec.EnvironmentSpec('denv', '[')],
+                             specials=[macrospec.SpecialsSpec('@@', '{'), macrospec.SpecialsSpec('@!')])
+    tdb = L.get_default_latex_context_db()
+    if route == 'spec-objects':
+        tdb.add_context_category('pv-decl', prepend=True, macros=[
+            L.MacroTextSpec('dmac', discard=True), L.MacroTextSpec('dbare')],
+            environments=[L.EnvironmentTextSpec('denv', discard=True)],
+            specials=[L.SpecialsTextSpec('@@', ''), L.SpecialsTextSpec('@!')])
+    elif route == 'legacy-defs':
+        tdb.add_context_category('pv-decl', prepend=True, macros=[
+            L.MacroDef('dmac', discard=True), L.MacroDef('dbare', discard=True)],
+            environments=[L.EnvDef('denv', discard=True)],
+            specials=[L.SpecialsTextSpec('@@', ''), L.SpecialsTextSpec('@!', '')])
+    return wdb, tdb
+
+
+DECLARED_DOCS = [
+    'TXAQ \\dmac[DSCQ]{DSCQ $DSCQ$} TXBQ', 'TXAQ \\dbare{DSCQ \\textbf{DSCQ}} TXBQ',
+    'TXAQ \\begin{denv}[DSCQ] DSCQ %DSCQ\n\\[ DSCQ \\] \\end{denv} TXBQ',
+    'TXAQ @@{DSCQ} TXBQ', 'TXAQ @! TXBQ', '\\textbf{TXAQ \\dmac{DSCQ}} $x \\dbare{DSCQ}$ TXBQ',
+    '\\begin{itemize}\\item TXAQ @@{\\emph{DSCQ}}\\item[\\dmac{DSCQ}] TXBQ\\end{itemize}',
+]
+
+
+def run_declared_one(case, res):
+    import warnings
+    from pylatexenc.latex2text import LatexNodes2Text
+    from pylatexenc.latexwalker import LatexWalker
+    doc, o, route = case['src'], case['opts'], case['route']
+    res.case()
+    try:
+        with warnings.catch_warnings():
+            warnings.simplefilter('ignore')
+            wdb, tdb = declared_db(route)
+            w = LatexWalker(doc, latex_context=wdb)
+            out = LatexNodes2Text(latex_context=tdb, **o).nodelist_to_text(w.get_latex_nodes()[0])
+    except BaseException as e:
+        res.fail(exc_key(e), exc_detail(e) + ' on %r (%s)' % (doc, route), case)
+        return
+    flat = ''.join(out.split())
+    if 'DSCQ' in flat and not (o['math_mode'] == 'verbatim' and '$' in doc):
+        res.fail('c12:discarded-content-appears:' + route, '%r -> %r' % (doc, out), case)
+    if 'TXAQ' not in flat or 'TXBQ' not in flat:
+        res.fail('c12:visible-text-missing:around-discard', '%r -> %r' % (doc, out), case)
+    res.nontriv_distinct()
+
+
+def run_declared(k, tier, res):
+    route = ('spec-objects', 'legacy-defs')[k]
+    res.label('declared-route:' + route)
+    for o in formula_opts(tier):
+        for doc in DECLARED_DOCS:
+            run_declared_one({'kind': 'declared', 'route': route, 'src': doc, 'opts': o}, res)
+    res.exhaustive = True
+
+
 def run_shard(shard, res):
+    if shard[0] == 'mathenvs':
+        run_mathenvs(shard[1], shard[2], res)
+        return
+    if shard[0] == 'declared':
+        run_declared(shard[1], shard[2], res)
+        return
     if shard[0] == 'names':
         check_names(shard[1], shard[2], res)
         res.exhaustive = True
@@ -353,6 +541,12 @@ def run_shard(shard, res):
 
 
 def check_case(case, res):
+    if case.get('kind') == 'formula':
+        check_formula(case['src'], case['fsrc'], case['opts'], res, case)
+        return
+    if case.get('kind') == 'declared':
+        run_declared_one(case, res)
+        return
     if 'src' in case:
         res.case()
         out = l2t(case['opts']).latex_to_text(case['src'], latex_context=wctx())
@@ -363,6 +557,8 @@ def check_case(case, res):
 
 
 def minimise(case, key):
+    if 'ast' not in case:
+        return case         # catalogue cases are minimal as written
     sig = docgrammar.SIGS['c12']
 
     def pred(items):
